@@ -194,7 +194,7 @@ def run(ctx):
     global _EXE
     b = build.Builder()
     _EXE = b.harness('asan', 'reader', ['h_reader.c'], wrap_alloc=True)
-    maxsub = 2 if ctx.tier == 'quick' else 4
+    maxsub = 3 if ctx.tier == 'quick' else 4
     fixed = []
     for lvl in (1, 2, 3):
         for k in range(0, maxsub + 1):
@@ -203,7 +203,7 @@ def run(ctx):
                     fixed.append((lvl, perm))
     ctx.cov['ext_orderings_enumerated'] = len(fixed)
     nsh = 12 if ctx.tier == 'quick' else 16
-    per = 400 if ctx.tier == 'quick' else 16000
+    per = 4000 if ctx.tier == 'quick' else 120000
     args = []
     for i in range(nsh):
         tz = 'UTC' if i % 3 else 'Europe/London'
